@@ -169,7 +169,7 @@ def BOOL_INFINITY : Nat := 30
 
 /-- `SDDecartian::UpdateSize` (factors non-empty) -/
 def prodCard (fs : List (List Val)) : Nat :=
-  fs.foldl (fun count f => if SET_INFINITY / f.length > count then count * f.length else SET_INFINITY) 1
+  fs.foldl (fun count f => if SET_INFINITY / f.length ≥ count then count * f.length else SET_INFINITY) 1
 
 /-- `SDPowerSet::UpdateSize` -/
 def powCard (n : Nat) : Nat := if n > BOOL_INFINITY then SET_INFINITY else 2 ^ n
